@@ -1,6 +1,6 @@
 (* Extract.v -- extraction of the executable model to OCaml (ExtrOcamlBasic only). *)
 From Coq Require Extraction ExtrOcamlBasic.
-From BpafModel Require Import Eval Wf Menu Console Process Shell Complete Help Docs Message Conv Derive.
+From BpafModel Require Import Eval Wf Menu Console Process Shell Complete Help Docs Message Conv Derive CompEval.
 Extraction "model.ml" run_inner run_inner_state guard_menu parse_menu map_menu any_menu
   default_info default_help_arg default_version_arg convert tokenize split_os_argument
   utf8_decode utf8_encode invariant_ok check_invariants_ok meta_of short_tables initial_state
@@ -9,4 +9,4 @@ Extraction "model.ml" run_inner run_inner_state guard_menu parse_menu map_menu a
   collect_html manpage_doc render_html render_markdown render_roff manpage_th
   denote compile_options flat_okb chain_okb tree_okb plain_cmds oko
   derive_field to_kebab_case unit_variant_names command_name group_help_of
-  eval outcome_of render_message_text render_doc_text utf8_valid arg_os.
+  eval outcome_of c_run_inner c_run_inner_state erase erase_o completer_menu render_message_text render_doc_text utf8_valid arg_os.
